@@ -16,7 +16,7 @@ from rv.gen import lasobj
 
 ID = "C12"
 LEVEL = "exploration"
-RULE = ("inputs: every readable+writable example file, generated LASFiles (first materialised as LAS 1.2 or 2.0 text) x pairs of "
+RULE = ("inputs: every readable+writable example file, generated LASFiles (first materialised as LAS 1.2 or 2.0 text), each read with mnemonic_case upper / lower / preserve x pairs of "
         "writer configurations over version {1.2, 2} x wrap x len_numeric_field {None, -1, 14, 20} x spacer x lhs_spacer x "
         "data_width {40, 79, 200} x header_width x data_section_header x mnemonics_header, both members of a pair using the same "
         "fmt / column_fmt. distinct = distinct (input, configuration pair); non-trivial = pair whose two texts differ and whose "
@@ -25,7 +25,7 @@ ASSUMPTIONS = [
     "inputs whose re-read fails under BOTH configurations are not comparable and are counted (C11 judges re-readability)",
     "VERS and WRAP items are excluded from the comparison, as the statement says",
 ]
-REQUIRED = ["pairs_compared", "pairs_12_vs_20", "pairs_wrap_vs_nowrap", "pairs_with_table_and_other_well_items", "corpus_pairs", "generated_pairs"]
+REQUIRED = ["pairs_compared", "pairs_12_vs_20", "pairs_wrap_vs_nowrap", "pairs_with_table_and_other_well_items", "corpus_pairs", "generated_pairs", "pairs_source_case_lower", "pairs_source_case_preserve"]
 SOFT_DEADLINE = {"quick": 100, "thorough": 1500}
 LEVEL_TEXT = "Metamorphic exploration over pairs of writer configurations; equality of the two re-reads is the oracle."
 LEVEL_NOTE = "Equality of two observed executions; trusts the canonical snapshot; configurations outside the listed dimensions are not covered."
@@ -68,8 +68,11 @@ def grid(tier):
     for fn in corpus():
         for pi in range(len(GRID_PAIRS)):
             yield {"input": fn, "pair": pi, "fmt": 0}
+        yield {"input": fn, "pair": 0, "fmt": 0, "src_case": "lower"}
+        yield {"input": fn, "pair": 2, "fmt": 0, "src_case": "preserve"}
     for k in range(80 if tier == "quick" else 500):
-        yield {"input": "gen", "seed": k, "pair": k % len(GRID_PAIRS), "fmt": k % len(FMTS), "gen_version": 1.2 if k % 2 else 2}
+        yield {"input": "gen", "seed": k, "pair": k % len(GRID_PAIRS), "fmt": k % len(FMTS), "gen_version": 1.2 if k % 2 else 2,
+               "src_case": ["upper", "lower", "preserve"][k % 3]}
 
 
 def n_random(tier):
@@ -77,7 +80,7 @@ def n_random(tier):
 
 
 def random_case(rng, tier):
-    c = {"cfg1": rand_cfg(rng), "cfg2": rand_cfg(rng), "fmt": rng.randrange(len(FMTS))}
+    c = {"cfg1": rand_cfg(rng), "cfg2": rand_cfg(rng), "fmt": rng.randrange(len(FMTS)), "src_case": rng.choice(["upper", "upper", "lower", "preserve"])}
     if rng.random() < 0.5:
         c.update(input="gen", seed=rng.randrange(10 ** 9), gen_version=rng.choice([1.2, 2]))
     else:
@@ -113,6 +116,7 @@ def run_case(case, ctx):
     lasio = ctx.lasio
     cfg1, cfg2 = (case["cfg1"], case["cfg2"]) if "cfg1" in case else GRID_PAIRS[case["pair"]]
     f = FMTS[case["fmt"]]
+    mc = case.get("src_case", "upper")      # the LASFile that is written may have been read with any mnemonic_case
     if case["input"] == "gen":
         import random
         spec = lasobj.rand_spec(random.Random(case["seed"]), text_curve=0.0)
@@ -120,7 +124,7 @@ def run_case(case, ctx):
             b = io.StringIO()
             lasobj.build(lasio, spec).write(b, version=case["gen_version"])
             source = b.getvalue()
-            fresh = lambda: lasio.read(source)
+            fresh = lambda: lasio.read(source, mnemonic_case=mc)
             fresh()
         except Exception as e:
             ctx.count("skipped_input_not_materialisable")
@@ -128,7 +132,7 @@ def run_case(case, ctx):
         kind = "generated"
     else:
         path = os.path.join(env.REPO, case["input"])
-        fresh = lambda: lasio.read(path)
+        fresh = lambda: lasio.read(path, mnemonic_case=mc)
         kind = "corpus"
     outs = []
     x = None
@@ -147,11 +151,12 @@ def run_case(case, ctx):
             return
         t = b.getvalue()
         try:
-            outs.append((t, lasio.read(t), None))
+            outs.append((t, lasio.read(t, mnemonic_case=mc), None))
         except Exception as e:
             outs.append((t, None, e))
     (t1, r1, e1), (t2, r2, e2) = outs
-    detail = {"input": case["input"], "seed": case.get("seed"), "cfg1": cfg1, "cfg2": cfg2, "fmt": f}
+    detail = {"input": case["input"], "seed": case.get("seed"), "cfg1": cfg1, "cfg2": cfg2, "fmt": f, "mnemonic_case": mc}
+    ctx.count("pairs_source_case_" + mc)
     src = fresh()
     if e1 is not None and e2 is not None:
         ctx.count("pairs_both_unreadable")
@@ -181,7 +186,7 @@ def run_case(case, ctx):
         diffs = canon.diff(c1, c2)
         key = classify(diffs, src, cfg1, cfg2, text_blanks)
         ctx.violation(key, "re-reads differ: %s" % diffs[:4], dict(detail, text1=t1[:2500], text2=t2[:2500]))
-    ctx.case_done([case["input"], case.get("seed"), sorted(cfg1.items()), sorted(cfg2.items()), case["fmt"]], nontrivial=t1 != t2 and rich)
+    ctx.case_done([case["input"], case.get("seed"), sorted(cfg1.items()), sorted(cfg2.items()), case["fmt"], mc], nontrivial=t1 != t2 and rich)
     if t1 != t2 and rich:
         ctx.sample({"input": case["input"], "cfg1": cfg1, "cfg2": cfg2, "fmt": f, "well mnemonics": names[:10]}, limit=4)
 
